@@ -116,9 +116,12 @@ pub open spec fn is_opt_punct(s: Seq<char>) -> bool {
     s =~= seq![','] || s =~= seq!['('] || s =~= seq![')'] || s =~= seq!['{'] || s =~= seq!['}'] || s =~= seq![';'] || s.len() == 0
 }
 /// the word contributed by one text atom (dict delimiter `(:` normalises to `:`)
+pub open spec fn is_bc(s: Seq<char>) -> bool { s.len() >= 2 && s[0] == '/' && s[1] == '*' }
+/// (a block comment counts as the one word `/*`: its lines are re-aligned, comment.rs carries the contract on its content)
 pub open spec fn word_of(s: Seq<char>) -> Seq<Seq<char>> {
     if is_blank(s) || is_opt_punct(s) { Seq::empty() }
     else if s =~= seq!['(', ':'] { seq![seq![':']] }
+    else if is_bc(s) { seq![seq!['/', '*']] }
     else { seq![s] }
 }
 pub open spec fn words(d: DocV, flat: bool) -> Seq<Seq<char>> decreases d {
@@ -126,7 +129,8 @@ pub open spec fn words(d: DocV, flat: bool) -> Seq<Seq<char>> decreases d {
         DocV::Text(s) => word_of(s),
         DocV::Cat(a, b) => words(*a, flat) + words(*b, flat),
         DocV::Nest(_, a) => words(*a, flat),
-        DocV::Align(a) => words(*a, flat),
+        // column alignment is only ever built around a block comment (comment.rs; enforced by N)
+        DocV::Align(a) => seq![seq!['/', '*']],
         DocV::Group(a) => words(*a, flat),
         DocV::FlatAlt(a, b) => if flat { words(*b, flat) } else { words(*a, flat) },
         _ => Seq::empty(),
@@ -137,13 +141,16 @@ pub open spec fn alt_ok(d: DocV) -> bool decreases d {
     match d {
         DocV::Cat(a, b) => alt_ok(*a) && alt_ok(*b),
         DocV::Nest(_, a) => alt_ok(*a),
-        DocV::Align(a) => alt_ok(*a),
+        DocV::Align(a) => true,
         DocV::Group(a) => alt_ok(*a),
         DocV::FlatAlt(a, b) => alt_ok(*a) && alt_ok(*b) && words(*a, false) == words(*b, true)
             && words(*a, true) == words(*a, false) && words(*b, true) == words(*b, false),
         _ => true,
     }
 }
+
+/// W: the document carries exactly these words, in this order, whatever layout the renderer picks
+pub open spec fn w_ok(d: DocV, ws: Seq<Seq<char>>) -> bool { alt_ok(d) && words(d, false) == ws && words(d, true) == ws }
 
 // ===== P : piece sequences for break-suppressed engines (C08 / C09): flatten Cat / Nil only =====
 pub open spec fn pieces(d: DocV) -> Seq<DocV> decreases d {
@@ -301,3 +308,10 @@ pub proof fn lemma_lead_ok_mono(s: Seq<char>, k: int, m: int)
     requires lead_ok(s, k), 0 <= m <= k,
     ensures lead_ok(s, m),
 {}
+pub proof fn lemma_words_repeat_hardline(n: nat)
+    ensures w_ok(repeat_doc(DocV::Hardline, n), Seq::empty()),
+    decreases n,
+{
+    reveal_with_fuel(words, 3); reveal_with_fuel(alt_ok, 3); reveal_with_fuel(repeat_doc, 2);
+    if n > 0 { lemma_words_repeat_hardline((n - 1) as nat); assert(Seq::<Seq<char>>::empty() + Seq::<Seq<char>>::empty() =~= Seq::<Seq<char>>::empty()); }
+}
